@@ -9,6 +9,7 @@ git -C /repo worktree add -q --detach $WT HEAD || exit 9
 git -C $WT apply /verif/seeded/$id/patch.diff || { echo "patch does not apply"; git -C /repo worktree remove --force $WT; exit 9; }
 for p in "$@"; do
   echo "=== $p ($tier) on $id"
-  ( cd /verif && VERIF_REPO=$WT VERIF_OUT_SUFFIX=$id timeout 3000 ./check $p --tier $tier 2>&1 | grep -E "^VIOLATION|^KNOWN|^HARNESS|violation class|^C[0-9]+ (quick|thorough)" | cut -c1-260 | head -${MAXL:-10}; echo "exit=${PIPESTATUS[0]}" )
+  ( cd /verif && VERIF_REPO=$WT VERIF_OUT_SUFFIX=$id VERIF_RSYM_CACHE=/tmp/mt/cache-$id timeout 3000 ./check $p --tier $tier 2>&1 | grep -E "^VIOLATION|^KNOWN|^HARNESS|violation class|^C[0-9]+ (quick|thorough)" | cut -c1-260 | head -${MAXL:-10}; echo "exit=${PIPESTATUS[0]}" )
 done
 git -C /repo worktree remove --force $WT
+rm -rf /tmp/mt/cache-$id
